@@ -190,7 +190,7 @@ def run(ctx):
     for i, c in enumerate(cases):
         c["id"] = i + 1
     cp = os.path.join(ctx.tmp, "pcases.ndjson")
-    il_every = 8 if quick else 4
+    il_every = 12 if quick else 4
     vf.write_ndjson(cp, [dict(id=c["id"], w=c["w"], hist=c["hist"], groups=[dict(q=g["q"], k=g["k"]) for g in c["groups"]],
                               il=interleaved_for(c, ctx.seed, il_every)) for c in cases])
     ncases = len(cases)
